@@ -83,6 +83,9 @@ def isActionMapping (m : Mapping) : Bool :=
   | none => false
   | some k => isActionKey k
 
+/-- `produces_action_key` (added by the fix of finding D7): some output key is not a modifier. -/
+def producesActionKey (m : Mapping) : Bool := m.to.any isActionKey
+
 /-- `is_any_modifier` -/
 def isAnyModifier (keys : List Key) : Bool := keys.any fun k => !isActionKey k
 
@@ -243,10 +246,12 @@ def addPhase1 (s : State) (m : Mapping) : State × List Event :=
   let c := consume m s.pass
   ({ s with pass := c.1, mapped := s.mapped ++ c.2.1 }, c.2.2)
 
-/-- `add_new_mapping`, second part: the `if is_action_mapping(m) { … }` block (with the fix of D5: the
-second `consume_pass_through_keys` inside `if should_absorb { … }`). -/
+/-- `add_new_mapping`, second part: the `if produces_action_key(m) { … }` block (with the fix of D5: the
+second `consume_pass_through_keys` inside `if should_absorb { … }`; with the fix of D7: the condition is
+`produces_action_key(m)` — any output key is a non-modifier — where it was `is_action_mapping(m)`, which
+looks at the last output key only). -/
 def addPhase2 (s : State) (newKey : Key) (m : Mapping) : State × List Event :=
-  if isActionMapping m then
+  if producesActionKey m then
     let r1 := releaseActionMappings s
     if shouldAbsorb r1.1 newKey then
       let r2 := releaseAbsorbedKeys r1.1
